@@ -21,7 +21,8 @@
 (* ALGORITHM side (step machine).                                             *)
 (*   ChooseCase           a case: mesh, main diagonal, mapping table, grid    *)
 (*                        addresses, values on irreducible points, frequency  *)
-(*                        list, projection coefficients                       *)
+(*                        list (IN ANY ORDER, repeats allowed), projection     *)
+(*                        coefficients                                         *)
 (*   RelativeGridAddress  the 24 x 4 table as the Python code builds it       *)
 (*   NeighbourLookup      values at the vertices of the 24 simplices around   *)
 (*                        every irreducible point: address + relative address,*)
@@ -337,6 +338,22 @@ ReqAdditive(c, d) ==
   CoefComplete(c) =>
     \A f \in DOMAIN d : \A j \in 1..Len(c.ws) :
        RSumSeq([m \in 1..NCoef(c) |-> d[f][j][m]]) = RScale(CoefSum(c), d[f][j][Total(c)])
+(* THE FREQUENCY GRID IS A LIST IN ANY ORDER.  cs.ws may be ascending,         *)
+(* descending, shuffled or hold a value several times: every requirement above *)
+(* is stated per index j and uses cs.ws[j] only, so the result at index j must *)
+(* not depend on the other points or on their order.  Two explicit forms:      *)
+(*   ReqPointwise       equal frequencies get equal results                   *)
+(*   ReqSameAsAscending results for the list as given = results for the same  *)
+(*                      points evaluated in ascending order (asc[k] = index   *)
+(*                      of the k-th smallest point, dAsc = results of that run) *)
+ReqPointwise(c, d) ==
+  \A f \in DOMAIN d : \A j1, j2 \in 1..Len(c.ws) : c.ws[j1] = c.ws[j2] => d[f][j1] = d[f][j2]
+IsAscendingOrder(c, asc) ==
+  /\ Len(asc) = Len(c.ws) /\ {asc[k] : k \in 1..Len(asc)} = 1..Len(c.ws)
+  /\ \A k \in 1..(Len(asc) - 1) : c.ws[asc[k]] <= c.ws[asc[k + 1]]
+ReqSameAsAscending(c, asc, d, dAsc) ==
+  \A f \in DOMAIN d : \A k \in 1..Len(asc) : d[f][asc[k]] = dAsc[f][k]
+
 (* without symmetry reduction the sum over grid points is the cell-wise sum *)
 IdentityMap(c) == \A g \in 0..(NGp(c.mesh) - 1) : c.map[g + 1] = g
 ReqCellwise(c, d, bounds) ==
@@ -357,4 +374,5 @@ InvNormalised == MDone => ReqNormalised(cs, dos)
 InvNonNegative == MDone => ReqNonNegative(cs, dos)
 InvAdditive == MDone => ReqAdditive(cs, dos)
 InvCellwise == MDone => ReqCellwise(cs, dos, cw)
+InvPointwise == MDone => ReqPointwise(cs, dos)
 =============================================================================
